@@ -262,6 +262,21 @@ CHECKS = {
          "Found and fixed: F43, F44."),
    design_ref='DESIGN.md §5 C09',
    note=COMMON_NOTE + "Histories run on single-signature HD wallets; multisig key paths are covered by the table and path theorems and by the cosigner-wallet comparison of C10."),
+ 'C10': dict(
+   technique='Lean 4 theorems (bytewise key sorting is permutation-invariant => one redeem script per key set; the stored signatures are the position-sorted duplicate-free signer set, independent of signing order; with the C02 verification loop an input verifies iff >= m distinct cosigners signed) + cosigner-wallet correspondence: every holder x key order x witness type against scripts/addresses computed from the seeds by the Lean BIP32/script/address functions, and signing ceremonies in every order through object / dict / raw hand-off',
+   text=("Proved in Lean: the bytewise order on public keys is total, transitive and antisymmetric, so sorting any permutation of the n cosigner "
+         "keys gives the same list and every cosigner wallet derives the same redeem script (hence script hash and address); the signatures an "
+         "input holds after any sequence of cosigners has signed are exactly the distinct signers in key-position order (order-independent, "
+         "idempotent), and with the transcription of Input.verify proved sound and complete in C02 the input verifies IFF at least m distinct "
+         "cosigners have signed, for every m, n and signing sequence. Correspondence: for legacy P2SH (BIP45), P2SH-P2WSH and P2WSH (BIP48) wallets, "
+         "m-of-n with n <= 3 quick (<= 5 thorough), every holder of the private key and supplied key orders: the address of every path equals "
+         "the one computed from the seeds alone (Lean BIP32 derivation of each cosigner key, Lean sorting, script and address); signing "
+         "ceremonies over all signer sequences (incl. a cosigner signing twice) with hand-off as object, dict and raw hex: after every step "
+         "the number of signatures and verify() must equal the model, the redeem script of the spend must be the sorted-key script, and "
+         "send(broadcast=True) must push iff at least m distinct cosigners signed. Found and fixed: F24 (dict hand-off), F25 (raw hand-off "
+         "broadcast a 2-of-2 with one signature); listed: F26 (raw hand-off loses partial signatures; never an under-signed broadcast)."),
+   design_ref='DESIGN.md §5 C10',
+   note=COMMON_NOTE + "ECDSA validity of the individual signatures is C02/C13; here the signer set, its order-independence and the threshold are decided. n up to 15 is covered by the theorems (any n), the run stops at n = 5."),
 }
 
 NOT_YET = {}
